@@ -39,6 +39,10 @@ func TestMain(m *testing.M) {
 		"go-libp2p-core/peer are the real module versions of /repo's go.mod; the harness calls them the same way the " +
 		"system does (gorpc stream_wrap.go: &codec.MsgpackHandle{}; go-libp2p-raft codec.go via EncodeSnapshot/DecodeSnapshot " +
 		"which share encode()/decode() with encodeOp/decodeOp: decode handle has ErrorIfNoField=true).")
+	R.Assume("A Reference, when present, points to a defined CID. adder/sharding gives the first shard of an add a reference to the " +
+		"undefined CID; protobuf and JSON read that back as no reference, the msgpack forms cannot decode it at all (an error, not " +
+		"a crash). That value is therefore not in this check's alphabet; what became of it on Raft (the committed entry was dropped) " +
+		"is a repaired defect covered by C01/C04 and by the raft-log section here (variant first-shard(ref-undefined)).")
 	R.Assume("Well-formed pin: Type is one of the four pin types, replication factors and depth fit int32, strings are valid " +
 		"UTF-8, origins carry a /p2p component, peer IDs are non-empty, expiry is the zero time or within +-1h of a frozen " +
 		"reference instant (never 1970-01-01T00:00:00Z which the code treats as 'no expiry').")
